@@ -280,8 +280,11 @@ func (env *Env) Generate(rng *rand.Rand, cfg GenCfg) (*World, []*Event, error) {
 	for len(evs) < nev {
 		mal := rng.Float64() < cfg.MalRate
 		k := rng.Intn(100)
-		if eager && nextOp < len(w.Ops) && (nextOp < 4 || rng.Intn(3) != 0) {
-			k = 0
+		if nextOp < len(w.Ops) && ((eager && (nextOp < 4 || rng.Intn(3) != 0)) || (!eager && rng.Intn(3) == 0)) {
+			k, mal = 0, mal && rng.Intn(4) == 0
+		}
+		if k >= 58 && k < 90 && len(regVals()) == 0 && rng.Intn(5) != 0 {
+			k = 14 // nothing registered yet: events about validators would all be "unknown validator" filler
 		}
 		switch {
 		case k < 14: // operator events
